@@ -34,8 +34,8 @@ func Import(fs afero.Fs) {
 	}, phttp.DefaultHTTP2GunConfig)
 
 	register.Gun("connect", func(conf phttp.GunConfig) func() core.Gun {
-		conf.Target, _ = phttp.PreResolveTargetAddr(&conf.Client, conf.Target)
-		conf.TargetResolved = conf.Target
+		targetResolved, _ := phttp.PreResolveTargetAddr(&conf.Client, conf.Target)
+		conf.TargetResolved = targetResolved
 		answLog := answlog.Init(conf.AnswLog.Path, conf.AnswLog.Enabled)
 		return func() core.Gun {
 			return phttp.WrapGun(phttp.NewConnectGun(conf, answLog))
